@@ -17,6 +17,21 @@ from . import VERIF
 PROPS = ["C01", "C02", "C03", "C04", "C05", "C06", "C07", "C08", "C09", "C10", "C11", "C12", "C13", "C15", "C16", "C17"]
 
 
+FALLBACK_CLAUSES = {
+    "C01": ["ensures:view"],
+    "C02": ["ensures:view"],
+    "C04": ["ensures:reserialises-identically", "ensures:wf"],
+    "C05": ["ensures:bk"],
+    "C06": ["ensures:fresh", "ensures:frame"],
+    "C07": ["ensures:view", "ensures:no-adoption", "ensures:other-unchanged"],
+    "C08": ["ensures:view", "ensures:wf"],
+    "C09": ["ensures:sound", "ensures:complete", "ensures:no-raise"],
+    "C10": ["raises:frame", "ensures:compatible-params", "ensures:compatible-children"],
+    "C12": ["raises:rollback"],
+    "C15": ["ensures:valid"],
+}
+
+
 def _worker(args):
     task, prop, tier = args
     t0 = time.time()
@@ -31,7 +46,7 @@ def _worker(args):
             from . import tasks
 
             try:
-                cxs = tasks.run_method_task(P, task[1], task[2])
+                cxs = tasks.run_method_task(P, task[1], task[2], *(task[3:4]))
             except core.Unsupported as e:
                 fi = P.lookup_method(task[1], {"zero": "zero", "add": "__add__", "iadd": "__iadd__", "mul": "__mul__", "rmul": "__rmul__", "fill": "fill", "fill-rollback": "fill", "eq": "__eq__", "ne": "__ne__"}[task[2]])
                 out["out_of_reach"].append({"function": fi.qualname if fi else str(task), "reason": str(e)})
@@ -103,6 +118,8 @@ def match_known(rec, known, prop):
         if "variant" in m and m["variant"] != rec["variant"]:
             continue
         if "path_contains" in m and m["path_contains"] not in rec["path"]:
+            continue
+        if "model" in m and any(str(rec.get("model", {}).get(kk)) != str(vv) for kk, vv in m["model"].items()):
             continue
         return k
     return None
@@ -201,11 +218,27 @@ def check(prop, tier, jobs, write_evidence=True):
         suffix = "" if path.endswith(".py") else " no-failing-input-found"
         print(f"VIOLATION property={prop} replay={path}{suffix}")
         code = 1
+    for name, rs in undecided:
+        print(f"UNDECIDED obligation={name} ({rs[0]['verdict']}: {rs[0].get('reason')})")
+    for o in oor:
+        print(f"OUT-OF-REACH function={o['function']} reason={o['reason']}")
+    # a function outside the executor's reach: bounded native search with the same clauses (DESIGN §3.1);
+    # a failing concrete input found there is a violation, otherwise the property stays undecided
+    seen_fn = set()
+    for o in oor:
+        fn = o["function"].split(" ")[0]
+        if fn in seen_fn:
+            continue
+        seen_fn.add(fn)
+        for clause in FALLBACK_CLAUSES.get(prop, []):
+            name = f"{prop}/{fn}/{clause}"
+            rec = {"obligation": name, "path": "out-of-reach", "variant": "native-fallback", "verdict": "out-of-reach", "model": {"reason": o["reason"]}}
+            path = replay.make_replay(prop, name, [rec], baseline_info)
+            if path.endswith(".py"):
+                print(f"VIOLATION property={prop} replay={path}")
+                violations.append((name, [rec]))
+                code = 1
     if code == 0 and (undecided or oor):
-        for name, rs in undecided:
-            print(f"UNDECIDED obligation={name} ({rs[0]['verdict']}: {rs[0].get('reason')})")
-        for o in oor:
-            print(f"OUT-OF-REACH function={o['function']} reason={o['reason']}")
         code = 2
     if crashes:
         for r in crashes:
